@@ -328,6 +328,18 @@ pub fn build(h: &Hist) -> Vec<Report> {
                 i += 1;
             }
         }
+        // a lagging receiver: a block of 1-3 consecutive reports is delivered late, right after some later report of the
+        // same aircraft, with its own (truthful) timestamps, in a quarter of the plans
+        if p.ops.get(7).map(|b| b % 4 == 0).unwrap_or(false) && mine.len() >= 6 {
+            let g = |k: usize| p.ops.get(k).copied().unwrap_or(0) as usize;
+            let blen = 1 + g(9) % 3;
+            let start = g(8) % (mine.len() - blen - 1);
+            let dest = start + blen + g(10) % (mine.len() - start - blen);
+            let at = mine[dest].arrival;
+            for k in 0..blen {
+                mine[start + k].arrival = at + 1e-4 * (k + 1) as f64;
+            }
+        }
         all.extend(mine);
     }
     all.sort_by(|a, b| a.arrival.partial_cmp(&b.arrival).unwrap());
@@ -1013,11 +1025,14 @@ fn classes(ctx: &Ctx, what: &str, h: &Hist) {
     ctx.class(&format!("{what} scenario, {} aircraft", h.plans.len()));
     for p in &h.plans {
         ctx.class(["plan: airborne only", "plan: landing", "plan: take-off", "plan: alias", "plan: airborne alias"][(p.kind as usize).min(4)]);
+        if p.ops.get(7).map(|b| b % 4 == 0).unwrap_or(false) {
+            ctx.class("plan: a block of 1-3 reports delivered late (lagging receiver)");
+        }
     }
 }
 
 pub fn run(ctx: &Ctx) {
-    ctx.set_rule("histories: 1-4 aircraft, each a plan (start from the C04 strata incl. flights along the 87th parallel, bearing, speed in {0,140,450,700, uniform 0-700} kt, 1-6 segments of 1-29 reports every 0.4-0.6 s separated by gaps from {9.5, 9.99, 10.01, 10.5, 12, 20, 30, 60, 170, 179.9, 180.1, 190, 470, 600, 1000, 1700, 1790, 1860, 2000, 7200 s}, mostly alternating parity, loss levels 0/20/60/90 %, duplicate receptions +<=0.3 s, neighbours delivered in swapped order across any gap (truthful timestamps) or with exchanged timestamps when < 1.5 s apart, DF17 (any capability) or DF18 (any control field) carriers, every airborne (9-18, 20-22) and surface (5-8) type code, altitudes unavailable / 25 ft / Gillham coded, any movement / track / status bits, a quarter of the reports followed by a non-position message of the same aircraft (velocity, identification, status, operational status, target state, type code 0, DF11, DF4) and such messages also arriving during gaps, parity-selective loss (8-67 consecutive reports lose every report of one parity), addresses independent or from one family differing in a few bits / byte order); the airborne alias family 'gap just long enough to fly k latitude / m longitude zones (+-40 km) at <= 690 kt, then airborne again'; surface scenarios add landings, take-offs and the adversarial 'last airborne fix exactly k surface zones away, long gap, then surface' family, with a receiver reference within 36 NM of every surface site and |lat| <= 80; 'hidden reference' scenarios are surface scenarios in which the decoder is given no receiver position at all; 'low altitude' scenarios put every aircraft on one common site, give airborne reports within 15 NM of it altitudes below 1000 ft and let the decoder move the receiver reference to such fixes (as decode1090 always does). Frames from the independent encoder through Message::try_from and decode_positions; and as a JSONL file through the real decode1090 binary (its own loop around decode_position) and, split into chunks, through the Python binding's decode_1090t_vec (positions within 25 m and equal to the library's). End to end: 1-4 slow aircraft (<= 100 kt, airborne within 100 NM / on the ground within 30 NM of their receiver) are served to the real jet1090 binary over one or two Beast TCP sources with receiver references far apart (airborne aircraft may be heard by both receivers, surface aircraft by their own; a third of the aircraft report no altitude); one fast aircraft is heard 18 s apart by two receivers whose Beast clocks differ (the reports must not be paired); every position it prints, and every position its /all table holds, must be within 25 m of a position that aircraft reported. Oracle: every attached position within 25 m of the encoded one; per-aircraft outputs bit-identical with and without the other aircraft (fixed reference). Non-trivial = history with >= 1 positioned report and (a gap > 9 s or >= 2 aircraft); distinct by hash of the report list.");
+    ctx.set_rule("histories: 1-4 aircraft, each a plan (start from the C04 strata incl. flights along the 87th parallel, bearing, speed in {0,140,450,700, uniform 0-700} kt, 1-6 segments of 1-29 reports every 0.4-0.6 s separated by gaps from {9.5, 9.99, 10.01, 10.5, 12, 20, 30, 60, 170, 179.9, 180.1, 190, 470, 600, 1000, 1700, 1790, 1860, 2000, 7200 s}, mostly alternating parity, loss levels 0/20/60/90 %, duplicate receptions +<=0.3 s, neighbours delivered in swapped order across any gap (truthful timestamps) or with exchanged timestamps when < 1.5 s apart, in a quarter of the plans a block of 1-3 consecutive reports delivered late (right after some later report of the aircraft, truthful timestamps: a lagging receiver), DF17 (any capability) or DF18 (any control field) carriers, every airborne (9-18, 20-22) and surface (5-8) type code, altitudes unavailable / 25 ft / Gillham coded, any movement / track / status bits, a quarter of the reports followed by a non-position message of the same aircraft (velocity, identification, status, operational status, target state, type code 0, DF11, DF4) and such messages also arriving during gaps, parity-selective loss (8-67 consecutive reports lose every report of one parity), addresses independent or from one family differing in a few bits / byte order); the airborne alias family 'gap just long enough to fly k latitude / m longitude zones (+-40 km) at <= 690 kt, then airborne again'; surface scenarios add landings, take-offs and the adversarial 'last airborne fix exactly k surface zones away, long gap, then surface' family, with a receiver reference within 36 NM of every surface site and |lat| <= 80; 'hidden reference' scenarios are surface scenarios in which the decoder is given no receiver position at all; 'low altitude' scenarios put every aircraft on one common site, give airborne reports within 15 NM of it altitudes below 1000 ft and let the decoder move the receiver reference to such fixes (as decode1090 always does). Frames from the independent encoder through Message::try_from and decode_positions; and as a JSONL file through the real decode1090 binary (its own loop around decode_position) and, split into chunks, through the Python binding's decode_1090t_vec (positions within 25 m and equal to the library's). End to end: 1-4 slow aircraft (<= 100 kt, airborne within 100 NM / on the ground within 30 NM of their receiver) are served to the real jet1090 binary over one or two Beast TCP sources with receiver references far apart (airborne aircraft may be heard by both receivers, surface aircraft by their own; a third of the aircraft report no altitude); one fast aircraft is heard 18 s apart by two receivers whose Beast clocks differ (the reports must not be paired); every position it prints, and every position its /all table holds, must be within 25 m of a position that aircraft reported. Oracle: every attached position within 25 m of the encoded one; per-aircraft outputs bit-identical with and without the other aircraft (fixed reference). Non-trivial = history with >= 1 positioned report and (a gap > 9 s or >= 2 aircraft); distinct by hash of the report list.");
     ctx.assume("speeds <= 700 kt along great circles (rhumb lines along the 87th parallel); receiver reference fixed (update_reference = None) except in the 'low altitude' scenarios, where every fix that can move it lies within 15 NM of the one site all surface traffic is on");
     ctx.assume("surface aircraft are stationary during gaps, so the 40 NM premise of the property stays true");
     let st = Stats { reports: AtomicU64::new(0), positioned: AtomicU64::new(0), surface_positioned: AtomicU64::new(0), reference_moves: AtomicU64::new(0), fillers: AtomicU64::new(0) };
